@@ -267,11 +267,15 @@ func generate(r *rng.R, thorough bool, index int) *history {
 			if policy {
 				// route to the predeclared queue, distinct digests, equal priority
 				dg = uint64(r.Intn(32))*2 + pqs[0].plat%2
+				for dg%5 == 3 {
+					dg = uint64(r.Intn(32))*2 + pqs[0].plat%2
+				}
 				inst = append(append([]uint64{}, pqs[0].prefix...), instances[r.Intn(2)]...)
 			}
 			plat := dg % 2 // the platform is part of the action, hence a function of its digest
 			nsc := scsFor(inst, plat)
-			ex := &execScript{Inst: inst, Plat: plat, Digest: dg, DNC: r.Chance(20), Prio: priorities[r.Intn(len(priorities))],
+			// do_not_cache is a field of the Action, hence a function of its digest
+			ex := &execScript{Inst: inst, Plat: plat, Digest: dg, DNC: dg%5 == 3, Prio: priorities[r.Intn(len(priorities))],
 				Keys: keyPaths[r.Intn(len(keyPaths))], SelIdx: r.Intn(nsc), SelDur: int64(r.Intn(50)) * sec, SelTO: int64(1+r.Intn(100)) * sec}
 			if policy {
 				ex.Prio = 0
